@@ -32,6 +32,10 @@ type typeDictionary struct {
 	dict map[Node]map[string]*Typedef
 	// identities contains a dictionary of resolved identities.
 	identities identityDictionary
+	// gen counts the processing runs.  A resolved type is a function of the
+	// modules, links and identities present when it was computed, so what
+	// one run memoised is not valid in the next.
+	gen int
 }
 
 func newTypeDictionary() *typeDictionary {
@@ -156,9 +160,10 @@ func (d *typeDictionary) resolveTypedefs() []error {
 func (t *Typedef) resolve(d *typeDictionary) []error {
 	// If we have no parent we are a base type and
 	// are already resolved.
-	if t.Parent == nil || t.YangType != nil {
+	if t.Parent == nil || (t.YangType != nil && t.resolvedGen == d.gen) {
 		return nil
 	}
+	t.YangType = nil
 
 	if errs := t.Type.resolve(d); len(errs) != 0 {
 		return errs
@@ -192,6 +197,7 @@ func (t *Typedef) resolve(d *typeDictionary) []error {
 		y.Root = &y
 	}
 	t.YangType = &y
+	t.resolvedGen = d.gen
 	return nil
 }
 
@@ -201,13 +207,14 @@ func (t *Type) resolve(d *typeDictionary) (errs []error) {
 	if t.resolving {
 		return []error{fmt.Errorf("%s: cyclic type reference: %s", Source(t), t.Name)}
 	}
-	if t.YangType != nil {
+	if t.YangType != nil && t.resolvedGen == d.gen {
 		// Report the errors of the first resolution again, otherwise a
 		// type that failed to resolve would look valid from now on.
 		return t.resolveErrs
 	}
+	t.YangType = nil
 	t.resolving = true
-	defer func() { t.resolving, t.resolveErrs = false, errs }()
+	defer func() { t.resolving, t.resolveErrs, t.resolvedGen = false, errs, d.gen }()
 
 	// If t.Name is a base type then td will not be nil, otherwise
 	// td will be nil and of type *Typedef.
